@@ -79,4 +79,73 @@ theorem projOut16_tracks (cells : List Int) (samples : List Nat) (h : NoSat 0 (L
   rw [e]
   exact ⟨rfl, sumQ_err _⟩
 
+/-! ### against the exact (unrounded) float-path value -/
+
+/-- The exact matrix product of the FLOAT stream samples, `Σ cell_k · v_k`, in units of 2^-164
+    (`cell` is Q15, `val` is in units of 2^-149): what `mapping_matrix_multiply_channel_out_float` would give
+    without any rounding. -/
+def sumExactF (l : List (Int × Nat)) : Int := (l.map (fun p => p.1 * ((val p.2).getD 0))).sum
+
+/-- The stream sample converts to 16 bits without saturating. -/
+def ConvOk (p : Int × Nat) : Prop :=
+  IsInt16 p.1 ∧ ∃ k, val p.2 = some k ∧ -32768 ≤ rne k 134 ∧ rne k 134 ≤ 32767
+
+theorem conv_err {p : Int × Nat} (h : ConvOk p) (hb : p.2 < 2 ^ 32) :
+    |p.1 * float2Int16 p.2 * 2 ^ 134 - p.1 * ((val p.2).getD 0)| ≤ 2 ^ 148 := by
+  obtain ⟨⟨m1, m2⟩, k, hk, r1, r2⟩ := h
+  have hs : float2Int16 p.2 = rne k 134 := by
+    rw [float2Int16_spec hb, out16Spec_of_val hk]; exact sat16_id r1 r2
+  obtain ⟨e1, _⟩ := rne_isRne k 134
+  rw [hs, hk]
+  simp only [Option.getD_some]
+  have e : p.1 * rne k 134 * 2 ^ 134 - p.1 * k = p.1 * (rne k 134 * 2 ^ 134 - k) := by ring
+  rw [e, abs_mul]
+  have hm : |p.1| ≤ 32768 := abs_le.mpr ⟨by omega, by omega⟩
+  have hz : |rne k 134 * 2 ^ 134 - k| ≤ 2 ^ 133 := by
+    have h133 : (2 : Int) ^ 134 = 2 * 2 ^ 133 := by norm_num
+    have : 2 * |rne k 134 * 2 ^ 134 - k| ≤ 2 * 2 ^ 133 := by rw [← h133]; exact e1
+    linarith
+  calc |p.1| * |rne k 134 * 2 ^ 134 - k| ≤ 32768 * 2 ^ 133 := mul_le_mul hm hz (abs_nonneg _) (by norm_num)
+    _ = 2 ^ 148 := by norm_num
+
+theorem sumExact_vs_F (l : List (Int × Nat)) (h : ∀ p ∈ l, ConvOk p ∧ p.2 < 2 ^ 32) :
+    |sumExact l * 2 ^ 134 - sumExactF l| ≤ (l.length : Int) * 2 ^ 148 := by
+  induction l with
+  | nil => simp [sumExact, sumExactF]
+  | cons p t ih =>
+    have hp := h p (List.mem_cons_self ..)
+    have ht := ih (fun q hq => h q (List.mem_cons_of_mem _ hq))
+    have hc := conv_err hp.1 hp.2
+    simp only [sumExact, sumExactF, List.map_cons, List.sum_cons, List.length_cons, Nat.cast_add, Nat.cast_one] at *
+    have e : (p.1 * float2Int16 p.2 + (List.map (fun p => p.1 * float2Int16 p.2) t).sum) * 2 ^ 134 -
+        (p.1 * (val p.2).getD 0 + (List.map (fun p => p.1 * (val p.2).getD 0) t).sum) =
+        (p.1 * float2Int16 p.2 * 2 ^ 134 - p.1 * (val p.2).getD 0) +
+        ((List.map (fun p => p.1 * float2Int16 p.2) t).sum * 2 ^ 134 - (List.map (fun p => p.1 * (val p.2).getD 0) t).sum) := by ring
+    rw [e]
+    calc _ ≤ _ := abs_add_le _ _
+      _ ≤ 2 ^ 148 + (t.length : Int) * 2 ^ 148 := add_le_add hc ht
+      _ = ((t.length : Int) + 1) * 2 ^ 148 := by ring
+
+/-- **16-bit path against the exact float-path value.**  No saturation anywhere (no conversion, no
+    accumulation step): the 16-bit output, in LSBs, differs from the exact matrix product of the float stream
+    samples (times 2^15) by at most ONE LSB PER MATRIX COLUMN (half for `RES2INT16` of the sample, half for the
+    rounded Q15 product). -/
+theorem projOut16_vs_exactF (cells : List Int) (samples : List Nat)
+    (hns : NoSat 0 (List.zip cells samples)) (hc : ∀ p ∈ List.zip cells samples, ConvOk p ∧ p.2 < 2 ^ 32) :
+    |projOut16 cells samples * 2 ^ 149 - sumExactF (List.zip cells samples)| ≤
+      ((List.zip cells samples).length : Int) * 2 ^ 149 := by
+  obtain ⟨_, t1, t2⟩ := projOut16_tracks cells samples hns
+  have h2 := sumExact_vs_F _ hc
+  generalize projOut16 cells samples = O at *
+  generalize sumExact (List.zip cells samples) = S at *
+  generalize sumExactF (List.zip cells samples) = E at *
+  generalize ((List.zip cells samples).length : Int) = K at *
+  have e149 : (2 : Int) ^ 149 = 32768 * 2 ^ 134 := by norm_num
+  have e148 : (2 : Int) ^ 148 = 16384 * 2 ^ 134 := by norm_num
+  have hP : (0 : Int) < 2 ^ 134 := by positivity
+  obtain ⟨a1, a2⟩ := abs_le.mp h2
+  rw [e149]; rw [e148] at a1 a2
+  apply abs_le.mpr
+  constructor <;> nlinarith
+
 end Opus.Pcm
